@@ -25,6 +25,8 @@ type yamlUnmarshaler struct {
 	resolver  Resolver
 	path      string
 	validator protoyaml.Validator
+
+	discardUnknown bool
 }
 
 func newYAMLUnmarshaler(resolver Resolver, options ...YAMLUnmarshalerOption) Unmarshaler {
@@ -45,6 +47,8 @@ func (m *yamlUnmarshaler) Unmarshal(data []byte, message proto.Message) error {
 		Resolver:  m.resolver,
 		Validator: m.validator,
 		Path:      m.path,
+
+		DiscardUnknown: m.discardUnknown,
 	}
 	if err := options.Unmarshal(data, message); err != nil {
 		return fmt.Errorf("yaml unmarshal: %w", err)
